@@ -138,6 +138,10 @@ def natives(I):
         I.assume(z3.And(v >= 0, v < len(I.enum_members(cls))))
         return SEnum(cls, v)
 
-    table = dict(uf_bool=uf_bool, uf_enum=uf_enum, havoc_bool=havoc_bool, havoc_int=havoc_int, havoc_enum=havoc_enum, havoc_str=havoc_str,
+    def fresh_list():
+        from .values import XList
+        return XList(None, [], False)
+
+    table = dict(fresh_list=fresh_list, uf_bool=uf_bool, uf_enum=uf_enum, havoc_bool=havoc_bool, havoc_int=havoc_int, havoc_enum=havoc_enum, havoc_str=havoc_str,
                  ghost_set=ghost_set, ghost_get=ghost_get, symbolic_run=symbolic_run, uf_str=uf_str, opaque=opaque, ghost_events=ghost_events, ite=ite, implies=implies, conj=conj, disj=disj, iff=iff, forall=forall, exists=exists, members=members)
     return {f'pyvc.ghost.{k}': NativeFn(v, k) for k, v in table.items()}
